@@ -2130,9 +2130,9 @@ def rule_special_trailing_trim(col, facts):
 
 def rule_suffix_step(col, facts):
     """MPT-suffix (integer parser, format only): when a byte that is not a digit is met after at least one
-    digit and the format has a base suffix, the parser steps over that byte *only if it is the suffix* (so that
-    the reported position / consumed count includes the suffix).  The step must therefore be control-dependent
-    on the suffix comparison having succeeded.  Stepping over any non-digit makes `12x4` report
+    digit and the format has a base suffix, the reported position / consumed count is moved one byte on (a
+    step of the iterator, or `cursor() + 1`) *only if that byte is the suffix*, so that the suffix is included.
+    The adjustment must therefore be control-dependent on the suffix comparison having succeeded.  Stepping over any non-digit makes `12x4` report
     InvalidDigit(3) and the partial parser return Ok((12, 3)), whose 3-byte prefix `12x` the complete parser
     rejects."""
     if "format" not in facts.config:
@@ -2143,9 +2143,17 @@ def rule_suffix_step(col, facts):
         f = facts.fn("lexical_parse_integer::algorithm::" + name)
         k = 0
         badsites = []
-        for bb, c, a, d, t in f.calls():
-            if last_seg(callee_name(c)) != "step_unchecked":
+        sites = [bb for bb, c, a, d, t in f.calls() if last_seg(callee_name(c)) == "step_unchecked"]
+        # ... or the position is reported as `cursor() + 1` without moving the iterator
+        for i, b in enumerate(f.blocks):
+            if not f.live(i):
                 continue
+            for st in b["s"]:
+                if st[0] == "=" and st[2][0] == "bin" and st[2][1].startswith("Add"):
+                    l, r = strip_casts(op_expr(f, st[2][2])), strip_casts(op_expr(f, st[2][3]))
+                    if l[0] == "call" and last_seg(l[1]) == "cursor" and r == ("k", 1):
+                        sites.append(i)
+        for bb in sites:
             conds = path_conditions(f, bb)
             if not any(any(last_seg(x[1]) in ("base_suffix",) for x in expr_calls(e)) or any(last_seg(x[1]) == "BASE_SUFFIX" for x in expr_consts(e)) for _d, e, p in conds):
                 continue
